@@ -467,6 +467,7 @@ mod real {
                 return;
             }
         };
+        let mut with_findings = 0;
         for k in 0..n {
             let i = 3_000_000_000 + k;
             if !ctx.want(i) {
@@ -474,11 +475,20 @@ mod real {
             }
             let mut rng = ctx.rng(i);
             let mut trouble = None;
+            let before = ctx.findings_reported();
             ctx.guarded(i, "real-daemon", || json!({}), |ctx| {
                 if let Err(e) = history(ctx, i, &mut rng, &daemon, &observer) {
                     trouble = Some(e);
                 }
             });
+            if ctx.findings_reported() > before {
+                with_findings += 1;
+                // a persistent disagreement costs its whole polling allowance: a few witnesses are enough
+                if with_findings >= 4 && !ctx.thorough() {
+                    ctx.count("real_class_stopped_after_findings", 1);
+                    return;
+                }
+            }
             if let Some(e) = trouble {
                 ctx.problem(&format!("C36 real-daemon history {i}: {e}"));
                 return;
